@@ -456,11 +456,8 @@ func (x *rh) Apply(op seqmc.Op) *seqmc.Fail {
 	case "Unlink":
 		return cmp(fmt.Sprintf("Unlink(%d)", op.B), e.Unlink(op.B), r.Unlink(op.B))
 	case "Len":
-		if op.A >= 0 {
-			if f := x.cyclic(op.A); f != nil {
-				return f
-			}
-		}
+		// (no walk before the call: Len / Do may be the FIRST operation a never-used zero-value ring sees;
+		// the structure of every state was verified by Observe when the state was reached)
 		if a, b := e.Len(), r.Len(); a != b {
 			return seqmc.Failf("Len:result", "Len of c%d = %d, container/ring %d", op.A, a, b)
 		}
@@ -519,13 +516,16 @@ func (x *rh) Apply(op seqmc.Op) *seqmc.Fail {
 			return seqmc.Failf("Do:result", "Do from c%d whose callback relinks cells behind the visited one (call %d, cell %d) visits %v, container/ring %v", op.A, op.B, op.C, a, b)
 		}
 	case "Do":
-		if op.A >= 0 {
-			if f := x.cyclic(op.A); f != nil {
-				return f
-			}
-		}
 		var a, b []int
-		e.Do(func(v int) { a = append(a, v) })
+		if p, m := enum.Catch(func() {
+			e.Do(func(v int) {
+				if a = append(a, v); len(a) > 4*x.N+8 {
+					panic("Do does not terminate")
+				}
+			})
+		}); p {
+			return seqmc.Failf("Do:result", "Do from c%d: %s (visited %v)", op.A, m, a)
+		}
 		r.Do(func(v any) { b = append(b, v.(int)) })
 		if fmt.Sprint(a) != fmt.Sprint(b) {
 			return seqmc.Failf("Do:result", "Do from c%d visits %v, container/ring %v", op.A, a, b)
